@@ -49,6 +49,9 @@ Accepted subset (anything else raises TranslateError with file:line):
                  while g is not None:
                      BODY                      (no continue / break, g and m not assigned)
                      g = m.next_guess()
+             x = [ELT for T in IT] (one `for`, no `if`: read as x = []; for T in IT: x.append(ELT));
+             `a if c else b` as the whole value of an assignment / append / return (read as
+             the if statement) or anywhere when neither branch can raise;
              or  `while True: g = m.next_guess(); if g is None: break; BODY`  (continue allowed),
              which are  for g in <the strings m still returns>;  continue (in for);
              return e;  return self.f(...) / x = self.f(...) for f in SPECS (or the
@@ -85,6 +88,7 @@ termination (fuel).  Rebinding of the translated methods from another module is 
 of the translator's sight.
 """
 import ast
+import copy
 import hashlib
 import os
 import sys
@@ -153,6 +157,77 @@ pstr pnode exc res Ok Exc LookupError OutOfFuel bindx lookup if_truthy len py_in
 py_bound slice_from slice_to slice chars str_eqb str_upper str_join negb andb orb
 KernelRt ExpandRt Expand pair left right inl inr I Eq Lt Gt xH xI xO Z0 Zpos Zneg N0 Npos
 CatM CatC CatPlain SegPlain SegAlpha mod""".split()) | {s["coq"] for s in SPECS} | {s["coq"] for s in OPAQUE.values()}
+
+
+# ------------------------------------------------------------------ desugaring
+def _names(node):
+    return {n.id for n in ast.walk(node) if isinstance(n, ast.Name)}
+
+
+def _at(new, old):
+    return ast.fix_missing_locations(ast.copy_location(new, old))
+
+
+def _split_ifexp(s, value, rebuild):
+    """statement s whose whole value is `a if c else b`  ->  if c: s[a] else: s[b]
+    (Python evaluates c, then only the chosen branch: the same order)"""
+    if not isinstance(value, ast.IfExp):
+        return None
+    return [_at(ast.If(test=value.test, body=desugar_block([rebuild(value.body)]),
+                       orelse=desugar_block([rebuild(value.orelse)])), s)]
+
+
+def desugar_stmt(s):
+    """-> list of statements with the same meaning in the subset the translator walks:
+       x = [ELT for T in IT]      ->  x = [];  for T in IT: x.append(ELT)
+                                      (one `for`, no `if`; x occurs neither in ELT nor in IT; the
+                                      comprehension's own variables are not visible afterwards -
+                                      the translator forgets loop variables after a loop anyway
+                                      and refuses a loop variable that is already bound)
+       x.append(a if c else b) / x = a if c else b / return a if c else b
+                                  ->  if c: ...a... else: ...b...
+    Anything else is returned unchanged (nested blocks are desugared recursively)."""
+    if isinstance(s, ast.Assign) and len(s.targets) == 1 and isinstance(s.targets[0], ast.Name):
+        x, v = s.targets[0].id, s.value
+        if isinstance(v, ast.ListComp) and len(v.generators) == 1:
+            g = v.generators[0]
+            if not g.ifs and not g.is_async and x not in _names(v.elt) | _names(g.iter) | _names(g.target):
+                init = _at(ast.Assign(targets=[ast.Name(id=x, ctx=ast.Store())],
+                                      value=ast.List(elts=[], ctx=ast.Load())), s)
+                app = _at(ast.Expr(value=ast.Call(
+                    func=ast.Attribute(value=ast.Name(id=x, ctx=ast.Load()), attr="append", ctx=ast.Load()),
+                    args=[v.elt], keywords=[])), v.elt)
+                loop = _at(ast.For(target=g.target, iter=g.iter, body=desugar_block([app]), orelse=[]), v)
+                return [init, loop]
+        r = _split_ifexp(s, v, lambda e: _at(ast.Assign(targets=[ast.Name(id=x, ctx=ast.Store())], value=e), s))
+        if r:
+            return r
+    if isinstance(s, ast.Return) and s.value is not None:
+        r = _split_ifexp(s, s.value, lambda e: _at(ast.Return(value=e), s))
+        if r:
+            return r
+    if isinstance(s, ast.Expr) and isinstance(s.value, ast.Call) and isinstance(s.value.func, ast.Attribute) \
+            and s.value.func.attr == "append" and len(s.value.args) == 1 and not s.value.keywords:
+        c = s.value
+        r = _split_ifexp(s, c.args[0], lambda e: _at(ast.Expr(value=ast.Call(func=c.func, args=[e], keywords=[])), s))
+        if r:
+            return r
+    for field in ("body", "orelse"):
+        if isinstance(s, (ast.If, ast.For, ast.While)) and getattr(s, field, None):
+            setattr(s, field, desugar_block(getattr(s, field)))
+    return [s]
+
+
+def desugar_block(stmts):
+    out = []
+    for s in stmts:
+        out.extend(desugar_stmt(s))
+    return out
+
+
+def desugared_body(fn):
+    """the statements of fn, desugared (on a copy: the sha in the header is of the source as written)"""
+    return desugar_block(copy.deepcopy(list(fn.body)))
 
 
 class Env:
@@ -335,6 +410,17 @@ class FunctionTranslator:
             return self.subscript(e, env, pre)
         if isinstance(e, ast.Call):
             return self.call(e, env, pre)
+        if isinstance(e, ast.IfExp):
+            c, tc = self.expr(e.test, env, pre)
+            pa, pb = [], []
+            a, ta = self.expr(e.body, env, pa)
+            b, tb = self.expr(e.orelse, env, pb)
+            if pa or pb:
+                self.fail(e, "a conditional expression whose branches may raise is supported only as the whole value "
+                             "of an assignment, an append or a return")
+            if tc != BOOL or ta != tb:
+                self.fail(e, "conditional expression of types %s ? %s : %s" % (tc, ta, tb))
+            return "if %s then %s else %s" % (c, a, b), ta
         self.fail(e, "unsupported expression (%s)" % type(e).__name__)
 
     def grammar_values(self, e, env, pre):
@@ -497,7 +583,7 @@ class FunctionTranslator:
                     self.fail(fn, "the helper method can end without a return statement")
 
                 hk = K(fall, lambda n, _e: self.fail(n, "continue outside a loop"), ret, k.exc)
-                return self.block(list(fn.body), henv, hk, ind)
+                return self.block(desugared_body(fn), henv, hk, ind)
             finally:
                 self.inlining.pop()
                 self.fn = outer_fn
@@ -617,7 +703,7 @@ class FunctionTranslator:
             elif isinstance(n, (ast.NamedExpr, ast.Delete, ast.Global, ast.Nonlocal, ast.With, ast.Import,
                                 ast.ImportFrom, ast.FunctionDef, ast.AsyncFunctionDef, ast.ClassDef, ast.Lambda,
                                 ast.ListComp, ast.SetComp, ast.DictComp, ast.GeneratorExp, ast.Try,
-                                ast.Yield, ast.YieldFrom, ast.Await, ast.Raise, ast.Assert, ast.IfExp,
+                                ast.Yield, ast.YieldFrom, ast.Await, ast.Raise, ast.Assert,
                                 ast.AsyncFor, ast.AsyncWith, ast.Starred)):
                 self.fail(n, "unsupported construct")
             elif isinstance(n, ast.Call):
@@ -1074,7 +1160,7 @@ class FunctionTranslator:
 
         k = K(fall, lambda n, e: self.fail(n, "continue outside a loop"), ret, lambda e: "Exc %s" % e)
         body = self.line(1, "let printed := @nil pstr in")
-        body += self.block(list(fn.body), env, k, 1)
+        body += self.block(desugared_body(fn), env, k, 1)
         params = " ".join("(%s : %s)" % (n, COQ_TYPE[ty]) for n, ty in spec["params"])
         dump = ast.dump(fn, include_attributes=False)
         sha = hashlib.sha256(dump.encode("utf-8")).hexdigest()
